@@ -87,7 +87,7 @@ func c12isGoRedisInvoke(c ssa.CallInstruction) bool {
 
 func c12extract(fn *ssa.Function) *c12wrap {
 	x := &c12wrap{name: fn.Name(), fn: fn, w: newC12fn(fn), exc: c12exceptions[fn.Name()]}
-	for _, f := range core.WithAnon(fn) {
+	for _, f := range c12closures(fn) {
 		for _, c := range core.Calls(f, func(in ssa.Instruction) bool { return core.AsCall(in) != nil }) {
 			if c12isGoRedisInvoke(c) {
 				x.cmds = append(x.cmds, c)
@@ -101,6 +101,45 @@ func c12extract(fn *ssa.Function) *c12wrap {
 		}
 	}
 	return x
+}
+
+// hops: when the closure holding the command is not itself handed to the
+// breaker but applied by another closure of the wrapper (what is left of a
+// higher-order helper such as withNode(fn func(Node) error) once the loader has
+// inlined it: the helper's closure calls the wrapper's literal with the node),
+// hops lists those applications from the command closure outwards and outer is
+// the closure that remains: the one that has to be handed to the breaker.
+func (x *c12wrap) hops() (calls []*ssa.Call, outer *ssa.Function) {
+	outer = x.cmdFn
+	for i := 0; i < 3 && outer != nil && outer != x.fn; i++ {
+		c := x.w.soleCallOf(x.w.mcs[outer])
+		if c == nil || c.Parent() == x.fn {
+			break
+		}
+		calls = append(calls, c)
+		outer = c.Parent()
+	}
+	return
+}
+
+// hopArg follows a parameter of the command closure to the argument it is
+// applied to (see hops); any other value is returned unchanged.
+func (x *c12wrap) hopArg(v ssa.Value) ssa.Value {
+	calls, _ := x.hops()
+	callee := x.cmdFn
+	for _, h := range calls {
+		prm, ok := v.(*ssa.Parameter)
+		if !ok || prm.Parent() != callee {
+			break
+		}
+		for i, q := range callee.Params {
+			if q == prm && i < len(h.Call.Args) {
+				v = core.Forward(h.Call.Args[i])
+			}
+		}
+		callee = h.Parent()
+	}
+	return v
 }
 
 // cmd returns the single command call, or nil.
@@ -205,7 +244,7 @@ func c12(r *core.Run) {
 			r.Fn(core.FuncName(f))
 			twin := sib[f.Name()+"Ctx"]
 			var calls []*ssa.Call
-			for _, g := range core.WithAnon(f) {
+			for _, g := range c12closures(f) {
 				for _, in := range core.Instrs(g, func(in ssa.Instruction) bool {
 					c, ok := in.(*ssa.Call)
 					return ok && c.Call.StaticCallee() == twin
@@ -323,7 +362,8 @@ func c12(r *core.Run) {
 				o.Fail(where, "%s: the command's context is %s, not the wrapper's ctx parameter (cancellation/deadline would not reach the command)", x.name, core.Describe(args[1]))
 			}
 			// node
-			node := core.Forward(args[0])
+			node := x.hopArg(core.Forward(args[0]))
+			_, brkFn := x.hops()
 			if x.exc.nodeParam {
 				if k := x.w.paramIndex(node); k < 0 {
 					o.Fail(where, "%s is tabled as using the caller-supplied node, but the command runs on %s", x.name, core.Describe(node))
@@ -341,7 +381,7 @@ func c12(r *core.Run) {
 				}
 			}
 			// breaker
-			mc := x.w.mcs[x.cmdFn]
+			mc := x.w.mcs[brkFn]
 			var brk *ssa.Call
 			if mc != nil && mc.Parent() == x.fn {
 				for _, ref := range *mc.Referrers() {
@@ -547,14 +587,14 @@ func c12(r *core.Run) {
 				o.Fail(p.InstrPos(cmd), "%s: the command's error is never read (.Result()/.Err() not called on the command)", x.name)
 				continue
 			}
-			isErr := func(v ssa.Value) bool { return errVals[core.Forward(v)] }
+			isErr := func(v ssa.Value) bool { return errVals[x.w.capturedLoad(core.Forward(v))] }
 			errNil := core.Cmp(token.EQL, isErr, core.IsNil)
 			errIsNil := core.Cmp(token.EQL, isErr, isRedisNil)
 			last := func(ret *ssa.Return) ssa.Value {
 				if len(ret.Results) == 0 {
 					return nil
 				}
-				return core.Result(ret, len(ret.Results)-1)
+				return x.w.capturedLoad(core.Result(ret, len(ret.Results)-1))
 			}
 			isNilRet := func(in ssa.Instruction) bool {
 				ret, ok := in.(*ssa.Return)
@@ -612,6 +652,28 @@ func c12(r *core.Run) {
 				}
 				if wv, found := core.Reach(core.Q{From: []core.At{core.Entry(f)}, Target: core.IsReturn, Blocked: blocked, Cut: core.CutSet(cutE)}); found {
 					o.Fail(p.InstrPos(wv), "%s: a return is reachable without issuing the command and without a getRedis failure", x.name)
+				}
+				// the command closure applied by another closure (a higher-order helper inlined): that closure
+				// applies it on every path but the getRedis failure and returns what it returned
+				hops, _ := x.hops()
+				for _, h := range hops {
+					hf := h.Parent()
+					if wv, found := core.Reach(core.Q{From: []core.At{core.Entry(hf)}, Target: core.IsReturn, Blocked: core.Or(core.Is(h), gerr)}); found {
+						o.Fail(p.InstrPos(wv), "%s: the closure handed to the breaker can return without running the command and without a getRedis failure", x.name)
+					}
+					nres := 1
+					if tup, ok := h.Type().(*types.Tuple); ok {
+						nres = tup.Len()
+					}
+					for _, ret := range core.Returns(hf) {
+						if _, after := core.Reach(core.Q{From: []core.At{core.After(h)}, Target: core.Is(ret)}); !after {
+							continue
+						}
+						lv := last(ret)
+						if c, idx := core.ResultOf(lv); lv == nil || c != h || idx != nres-1 {
+							o.Fail(p.InstrPos(ret), "%s: after the command ran, the closure handed to the breaker returns %s, not the command closure's error: the failure is hidden from the breaker and from the caller", x.name, core.Describe(lv))
+						}
+					}
 				}
 			}
 		}
@@ -730,7 +792,7 @@ func c12(r *core.Run) {
 			return
 		}
 		r.Fn(core.FuncName(f))
-		c12checkDisjunction(o, p, f, map[string]bool{"nil": true, "redis.Nil": true, "context.Canceled": true}, func(v ssa.Value) string {
+		c12checkErrorSet(o, p, f, map[string]bool{"nil": true, "redis.Nil": true, "context.Canceled": true}, func(v ssa.Value) string {
 			switch {
 			case core.IsNil(v):
 				return "nil"
@@ -759,7 +821,7 @@ func c12(r *core.Run) {
 			continue
 		}
 		ki := kvInfo{f: f, w: newC12fn(f)}
-		for _, g := range core.WithAnon(f) {
+		for _, g := range c12closures(f) {
 			if d := c12kvDelegates[f.Name()]; d != "" {
 				for _, c := range c12methodCalls(g, "("+c12kvPkg+".kvStore).") {
 					if c.Call.StaticCallee() == kvByName[d] {
@@ -1037,138 +1099,4 @@ func c12isMap(t types.Type) bool     { _, ok := t.Underlying().(*types.Map); ret
 func c12isStringSlice(t types.Type) bool {
 	s, ok := t.Underlying().(*types.Slice)
 	return ok && c12isString(s.Elem())
-}
-
-// c12checkDisjunction decides, by enumerating the (acyclic) paths of a small
-// boolean predicate f(err), that f returns true exactly when err equals one of
-// the expected values: on every path the result is the constant true once some
-// comparison err == X held, and false (or the last untested comparison) when
-// all tested comparisons failed; the compared values are exactly `want`.
-func c12checkDisjunction(o *core.O, p *core.Prog, f *ssa.Function, want map[string]bool, name func(ssa.Value) string) {
-	param := f.Params[0]
-	cmpOf := func(v ssa.Value) (string, bool, bool) { // name, positive (==), ok
-		b, ok := v.(*ssa.BinOp)
-		if !ok || (b.Op != token.EQL && b.Op != token.NEQ) {
-			return "", false, false
-		}
-		var other ssa.Value
-		switch {
-		case core.Strip(b.X) == ssa.Value(param):
-			other = b.Y
-		case core.Strip(b.Y) == ssa.Value(param):
-			other = b.X
-		default:
-			return "", false, false
-		}
-		n := name(other)
-		if n == "" {
-			n = "?" + core.Describe(other)
-		}
-		return n, b.Op == token.EQL, true
-	}
-	seenCmp := map[string]bool{}
-	paths := 0
-	var walk func(b, from *ssa.BasicBlock, truth map[string]bool, depth int)
-	walk = func(b, from *ssa.BasicBlock, truth map[string]bool, depth int) {
-		if depth > 40 || paths > 4096 {
-			o.Unres("%s: control flow too complex", core.FuncName(f))
-			return
-		}
-		last := b.Instrs[len(b.Instrs)-1]
-		// evaluate a boolean value on this path
-		var eval func(v ssa.Value) (known bool, val bool, open string)
-		eval = func(v ssa.Value) (bool, bool, string) {
-			switch x := v.(type) {
-			case *ssa.Const:
-				return true, x.Value != nil && x.Value.String() == "true", ""
-			case *ssa.Phi:
-				if x.Block() == b && from != nil {
-					for i, pr := range b.Preds {
-						if pr == from {
-							return eval(x.Edges[i])
-						}
-					}
-				}
-			case *ssa.UnOp:
-				if x.Op == token.NOT {
-					k, v2, op := eval(x.X)
-					if k {
-						return true, !v2, ""
-					}
-					if op != "" {
-						return false, false, "!" + op
-					}
-				}
-			case *ssa.BinOp:
-				if n, pos, ok := cmpOf(x); ok {
-					seenCmp[n] = true
-					if t, known := truth[n]; known {
-						return true, t == pos, ""
-					}
-					if pos {
-						return false, false, n
-					}
-					return false, false, "!" + n
-				}
-			}
-			return false, false, "?" + core.Describe(v)
-		}
-		switch t := last.(type) {
-		case *ssa.Return:
-			paths++
-			o.Site(1)
-			anyTrue := false
-			for _, tv := range truth {
-				if tv {
-					anyTrue = true
-				}
-			}
-			known, val, open := eval(t.Results[0])
-			switch {
-			case known && val != anyTrue:
-				o.Fail(p.InstrPos(t), "%s returns %v on the path where %v", core.FuncName(f), val, truth)
-			case !known && (anyTrue || strings.HasPrefix(open, "!") || strings.HasPrefix(open, "?")):
-				o.Fail(p.InstrPos(t), "%s returns %s on the path where %v", core.FuncName(f), open, truth)
-			}
-		case *ssa.If:
-			known, val, open := eval(t.Cond)
-			if known {
-				s := b.Succs[1]
-				if val {
-					s = b.Succs[0]
-				}
-				walk(s, b, truth, depth+1)
-				return
-			}
-			neg := strings.HasPrefix(open, "!")
-			n := strings.TrimPrefix(open, "!")
-			if strings.HasPrefix(n, "?") {
-				o.Fail(p.InstrPos(t), "%s branches on %s, which is not a comparison of err with a fixed value", core.FuncName(f), n)
-				return
-			}
-			for i, s := range b.Succs {
-				t2 := map[string]bool{}
-				for k, v := range truth {
-					t2[k] = v
-				}
-				t2[n] = (i == 0) != neg
-				walk(s, b, t2, depth+1)
-			}
-		case *ssa.Jump:
-			walk(b.Succs[0], b, truth, depth+1)
-		default:
-			o.Unres("%s: unexpected terminator %T", core.FuncName(f), last)
-		}
-	}
-	walk(f.Blocks[0], nil, map[string]bool{}, 0)
-	for n := range want {
-		if !seenCmp[n] {
-			o.Fail(p.Pos(f.Pos()), "%s no longer accepts %s", core.FuncName(f), n)
-		}
-	}
-	for n := range seenCmp {
-		if !want[n] {
-			o.Fail(p.Pos(f.Pos()), "%s also accepts %s", core.FuncName(f), n)
-		}
-	}
 }
